@@ -252,8 +252,10 @@ def gen_inflight(full=True):
                     for t in offs:
                         sc = dict(base, subs=subs, controls=[[req, "ensure", 1], [t, ck, ca]] + reuse, end=after + 200001,
                                   tag=f"inflight/{ck}/{dname}")
-                        if ck in ("pair", "close_then", "shutdown_then"):
-                            sc["oracle_only"] = ck == "pair"
+                        if ck in ("pair", "close_then"):
+                            # the second event's effects interleave with the first's inside one tick (scheduler's
+                            # choice; the snapshot is taken after both): judged by the property oracles only
+                            sc["oracle_only"] = True
                         out.append(sc)
     return out
 
@@ -349,6 +351,13 @@ def gen_long(r, n):
 
 
 # ------------------------------------------------------------------ property oracles on an implementation trace
+def _vdelay_of(sc, cid):
+    """Scripted reaction delay of the accessory for connection cid (connections are numbered 1.. in opening order)."""
+    vs = sc.get("verifies", [])
+    v = vs[cid - 1] if 0 < cid <= len(vs) else []
+    return v[3] if len(v) > 3 else 0
+
+
 def oracle_c10(sc, tr):
     """Returns list of (key, text) property failures visible in the trace."""
     sc = dict(sc, controls=expand_controls(sc))
@@ -453,11 +462,28 @@ def oracle_c11(sc, tr):
         end = [e for e in tr if e[1] == "snap" and e[2] == "end"]
         if not reopen and end and end[-1][3]:
             bad.append(("open-after-close", f"connections {end[-1][3]} still open after close"))
-    # a failed secure setup is closed: 'verify' with a failing kind must be followed by 'closed' of that cid at the same tick
-    closed_at = {(e[0], e[2]) for e in tr if e[1] == "closed"}
+    # a failed secure setup is closed: the pair-verify request of connection c (logged by the accessory as 'verify'
+    # when it arrives) whose scripted outcome is a failure - or whose answer does not come within the 30 s request
+    # timeout - must be followed by 'closed' of c no later than the accessory's reaction / the timeout
+    # (vdelay of the i-th opened connection = i-th entry of the scenario's verify script; 0 = same tick)
+    closed_tick = {}
     for e in tr:
-        if e[1] == "verify" and e[3] != "ok" and (e[0], e[2]) not in closed_at:
-            bad.append(("failed-setup-left-open:" + e[3], f"connection {e[2]} whose pair-verify ended '{e[3]}' was not closed"))
+        if e[1] == "closed":
+            closed_tick.setdefault(e[2], e[0])
+    endt = max([e[0] for e in tr if e[1] == "snap"], default=0)
+    for e in tr:
+        if e[1] != "verify":
+            continue
+        vd = _vdelay_of(sc, e[2])
+        if e[3] == "ok" and vd < THIRTY_S:
+            continue
+        deadline = e[0] + min(vd, THIRTY_S)
+        if deadline > endt:
+            continue                        # the run ended while the request was still in flight
+        if closed_tick.get(e[2], deadline + 1) > deadline:
+            what = f"ended '{e[3]}'" if vd < THIRTY_S else "was never answered (30 s request timeout)"
+            bad.append(("failed-setup-left-open:" + (e[3] if vd < THIRTY_S else "timeout"),
+                        f"connection {e[2]} whose pair-verify {what} was not closed by tick {deadline}"))
     return bad
 
 
